@@ -351,9 +351,19 @@ func kindRep2(c *hlib.Ctx) {
 func kindHier2(c *hlib.Ctx) {
 	var s *soup2
 	label := "nested"
-	switch c.Rng.Intn(8) {
+	var polyRoots []*pnode
+	switch c.Rng.Intn(12) {
 	case 0:
 		s, label = damaged2(c)
+	case 2, 3, 4, 5, 6:
+		// non-convex, non-concentric nests: polyominoes inside each other's material
+		polyRoots = polyNest(c)
+		s = soupOfSegs(c, polySegs2(c, polyRoots))
+		label = "poly"
+		if c.Rng.Intn(2) == 0 {
+			label = "poly-loops-flipped"
+			flipLoops2(c, s)
+		}
 	case 1:
 		s = soupOfSegs(c, nested2(c, false))
 		label = "nested-mixed-orientation"
@@ -362,35 +372,45 @@ func kindHier2(c *hlib.Ctx) {
 		// whole polygons may be oriented either way: flip every loop with probability 1/2
 		if c.Rng.Intn(2) == 0 {
 			label = "nested-loops-flipped"
-			// loops = connected components; flip consistently
-			parent := make([]int, len(s.coords))
-			for i := range parent {
-				parent[i] = i
-			}
-			var find func(int) int
-			find = func(x int) int {
-				for parent[x] != x {
-					parent[x] = parent[parent[x]]
-					x = parent[x]
-				}
-				return x
-			}
-			for _, g := range s.segs {
-				parent[find(g[1])] = find(g[0])
-			}
-			flip := map[int]bool{}
-			for i := range s.coords {
-				if find(i) == i {
-					flip[i] = c.Rng.Intn(2) == 0
-				}
-			}
-			for i, g := range s.segs {
-				if flip[find(g[0])] {
-					s.segs[i] = [2]int{g[1], g[0]}
-				}
-			}
+			flipLoops2(c, s)
 		}
 	}
+	hier2Case(c, s, label, polyRoots)
+}
+
+// flipLoops2 reverses whole loops (connected components) at random.
+func flipLoops2(c *hlib.Ctx, s *soup2) {
+	parent := make([]int, len(s.coords))
+	for i := range parent {
+		parent[i] = i
+	}
+	var find func(int) int
+	find = func(x int) int {
+		for parent[x] != x {
+			parent[x] = parent[parent[x]]
+			x = parent[x]
+		}
+		return x
+	}
+	for _, g := range s.segs {
+		parent[find(g[1])] = find(g[0])
+	}
+	flip := map[int]bool{}
+	for i := range s.coords {
+		if find(i) == i {
+			flip[i] = c.Rng.Intn(2) == 0
+		}
+	}
+	for i, g := range s.segs {
+		if flip[find(g[0])] {
+			s.segs[i] = [2]int{g[1], g[0]}
+		}
+	}
+}
+
+// hier2Case runs the 2-D MeshToHierarchy on the soup and prints nodes, parents, FullMesh and
+// Contains on query points.
+func hier2Case(c *hlib.Ctx, s *soup2, label string, polyRoots []*pnode) {
 	b := s.build()
 	var qs []model2d.Coord
 	if len(s.segs) > 0 {
